@@ -1,3 +1,6 @@
+import ChipFiring.Theory.Acyclic
+import ChipFiring.Theory.RankTheory
+import ChipFiring.Theory.CertCheck
 import ChipFiring.Theory.EwdFull
 import ChipFiring.Theory.GoodOf
 /-
@@ -93,5 +96,30 @@ theorem certificate_connected (G : Graph n) (hG : G.WF) (hc : G.Connected) (hint
   obtain ⟨q, h1, h2, h3, h4, h5, h6, -⟩ :=
     ewd_orientation_certificate G hG hint fuel Dv opt r red (cover_of_connected G hG hc hint) h hr
   exact ⟨q, h1, h2, h3, h4, h5, h6⟩
+
+/-- **verified checker**: the driver runs `certOK` on the orientation the *implementation* returned
+    (witness phase of the check); whatever it accepts is the certificate this property describes —
+    full, acyclic, nothing enters q, every other vertex holds fewer chips than its in-degree — and
+    for an unwinnable verdict the divisor is dominated by in-degree minus one.  This holds for any
+    burn order the code may use. -/
+theorem checker_sound (G : Graph n) (q : Fin n) (D : Fin n → Int) (dir : Fin n → Fin n → Bool) (pos : Fin n → Nat)
+    (h : certOK G q D dir pos = true) :
+    OFull G dir ∧ OAcyclic G dir ∧ indeg G dir q = 0 ∧ (∀ v, v ≠ q → D v < indeg G dir v) ∧
+    (D q < 0 → ∀ v, D v ≤ indeg G dir v - 1) := by
+  obtain ⟨h1, h2, h3, h4⟩ := certOK_sound G q D dir pos h
+  exact ⟨h1, h2, h3, h4, certOK_dominated G q D dir pos h⟩
+
+/-- and an accepted certificate with debt at q proves unwinnability of the class (T9 + domination) -/
+theorem checker_proves_unwinnable (G : Graph n) (hG : G.WF) (hn : 0 < n) (q : Fin n) (D : Fin n → Int)
+    (dir : Fin n → Fin n → Bool) (pos : Fin n → Nat)
+    (h : certOK G q D dir pos = true) (hq : D q < 0) : ¬ Winnable G D := by
+  obtain ⟨-, hac, -, -⟩ := certOK_sound G q D dir pos h
+  have hdom := certOK_dominated G q D dir pos h hq
+  intro hw
+  have hF : Eff (fun v => (indeg G dir v - 1) - D v) := fun v => by have := hdom v; simp only; omega
+  have := Winnable.add_eff G hw hF
+  have heq : (fun v => D v + ((indeg G dir v - 1) - D v)) = fun v => indeg G dir v - 1 := by funext v; ring
+  rw [heq] at this
+  exact CF.acyclic_unwinnable G hG.symm hn dir hac this
 
 end CF.C09
